@@ -49,6 +49,13 @@ func VerifHeader(v Value) (b []byte, frozenOff, iterOff int, ok bool) {
 		return verifTable(&v.ht), int(unsafe.Offsetof(v.ht.frozen)), int(unsafe.Offsetof(v.ht.itercount)), true
 	case *Function:
 		return verifBytes(unsafe.Pointer(v), unsafe.Sizeof(*v)), int(unsafe.Offsetof(v.frozen)), -1, true
+	case Tuple:
+		// the tuple's array up to its CAPACITY (a tuple obtained by slicing has spare room)
+		if c := cap(v); c > 0 {
+			all := v[:c]
+			return verifBytes(unsafe.Pointer(&all[0]), uintptr(c)*unsafe.Sizeof(all[0])), -1, -1, true
+		}
+		return []byte{}, -1, -1, true
 	}
 	return nil, -1, -1, false
 }
